@@ -9,8 +9,13 @@
 //!       G\tmeta\t0\t<optimized sexp>\t-
 //!       D\t<rule>\t<text hex>\t<checked-in obs>\t<vm obs>
 //!   c14 freshsrc REPO         source of a program with a #[derive(Parser)] of grammar.pest that appends its own observation to D lines
+//!   c14 freshgen REPO         the same, but the parser is the token stream the in-tree pest_generator::derive_parser returns for grammar.pest
+//!                             (the bootstrap invocation), written out as source: the program depends on the repository's `pest` only
+//!   c14 target REPO NAMES MAXLEN [light] [SEED]   targeted failing-input search for the rules NAMES (see the mode)
 #[path = "../genread.rs"]
 mod genread;
+#[path = "../c14_texts.rs"]
+mod texts;
 use pvharness::gram::*;
 use pvharness::prog::hex;
 use pvharness::*;
@@ -27,6 +32,31 @@ fn fresh_tokens(repo: &str) -> proc_macro2::TokenStream {
         pub struct PestParser;
     };
     pest_generator::derive_parser(pest, false)
+}
+
+/// every function of a Rust source, keyed by its module path (`rules::unicode`, `rules::hidden::skip`, ..), as a token string
+fn fn_bodies(src: &str) -> Option<std::collections::HashMap<String, String>> {
+    use quote::ToTokens;
+    use syn::visit::Visit;
+    let f = syn::parse_file(src).ok()?;
+    struct V(std::collections::HashMap<String, String>, Vec<String>);
+    impl<'ast> Visit<'ast> for V {
+        fn visit_item_fn(&mut self, i: &'ast syn::ItemFn) {
+            let name = i.sig.ident.to_string();
+            let mut path = self.1.clone();
+            path.push(name.trim_start_matches("r#").to_string());
+            self.0.insert(path.join("::"), i.to_token_stream().to_string());
+            syn::visit::visit_item_fn(self, i);
+        }
+        fn visit_item_mod(&mut self, m: &'ast syn::ItemMod) {
+            self.1.push(m.ident.to_string());
+            syn::visit::visit_item_mod(self, m);
+            self.1.pop();
+        }
+    }
+    let mut v = V(Default::default(), vec![]);
+    v.visit_file(&f);
+    Some(v.0)
 }
 
 fn obs_err<R: std::fmt::Debug>(e: pest::error::Error<R>) -> String {
@@ -174,6 +204,12 @@ fn main() {
                 let sn = |s: &[u8]| String::from_utf8_lossy(&s[k.saturating_sub(60).min(s.len())..(k + 60).min(s.len())]).to_string();
                 writeln!(w, "REGEN\tdifferent\tfirst difference at byte {} (regenerated {} bytes, checked-in {} bytes): regenerated `{}` vs checked-in `{}`",
                     k, a.len(), b.len(), esc(&sn(a)), esc(&sn(b))).unwrap();
+                // which functions differ (token-level, independent of the reader and of the model): the rules to search around
+                if let (Some(x), Some(y)) = (fn_bodies(&would_write), fn_bodies(&checked_in)) {
+                    let mut keys: Vec<&String> = x.keys().chain(y.keys()).collect();
+                    keys.sort(); keys.dedup();
+                    for k in keys { if x.get(k) != y.get(k) { writeln!(w, "REGENFN\t{}", k).unwrap(); } }
+                }
             }
         }
         "read" => {
@@ -259,32 +295,118 @@ fn main() {
             writeln!(w, "#SUMMARY\tevaluations={}\tdistinct_nontrivial={}\tdirect_differences={}\tpest_files={}", n, nt, diffs, nfiles).unwrap();
         }
         "target" => {
-            // targeted failing-input search for the rules named in arg(3) (comma separated): all short strings over the alphabet of the
-            // literals of the rule and its callees (both versions) fed to THAT rule, and embedded in minimal contexts fed to the top rule
+            // targeted failing-input search for the rules named in arg(3) (comma separated; these are the rules a structural stage found to
+            // differ).  The oracle is the property itself, on the real code: every text goes to the checked-in parser and to pest_vm here, and
+            // to the freshly generated parser downstream.  Texts, all derived from the grammar file (src/c14_texts.rs):
+            //  (a) spellings of the rule (every alternative, range endpoint, every count of a bounded repetition from min-1 to max+1, 0-3
+            //      iterations otherwise), from the AST and from the optimized rules, + character-level mutations, fed to the rule;
+            //  (b) the same spellings embedded in a shortest text of EVERY rule that reaches the rule, up to the top rule, fed to that rule;
+            //  (c) the grammar's own trivia (spellings of WHITESPACE / COMMENT, singly and in pairs) inserted at every position of the
+            //      shortest of these texts; when the rule is itself part of the trivia, its spellings are used as trivia in texts of every rule;
+            //  (d) unless `light`: all strings up to MAXLEN over the literal alphabet of the rule and its callees (both versions), alone and
+            //      in fixed contexts for the top rule.
             let targets: Vec<String> = arg(3).split(',').filter(|x| !x.is_empty()).map(|x| x.to_string()).collect();
             let maxlen = arg_u64(4, 4) as usize;
+            let light = arg(5) == "light";
+            let mut rng = Rng::new(arg_u64(6, 0));
             let gtext = std::fs::read_to_string(grammar_path(&repo)).expect("grammar.pest");
+            let ast = catch(|| pest_meta::parser::parse(pest_meta::parser::Rule::grammar_rules, &gtext).ok().and_then(|p| pest_meta::parser::consume_rules(p).ok())).ok().flatten();
             let opt = match catch(|| pest_meta::parse_and_optimize(&gtext)) { Ok(Ok((_, o))) => o, _ => { writeln!(w, "GE\tmeta/src/grammar.pest is rejected by pest_meta (the checked-in parser + validator)").unwrap(); writeln!(w, "#SUMMARY\tevaluations=1\tdistinct_nontrivial=0").unwrap(); return; } };
             writeln!(w, "G\tmeta\t0\t{}\t-", sexp_grammar(&from_orules(&opt))).unwrap();
             let names: Vec<String> = opt.iter().map(|r| r.name.clone()).collect();
             let rmap: std::collections::HashMap<String, pest_meta::optimizer::OptimizedExpr> = opt.iter().map(|r| (r.name.clone(), r.expr.clone())).collect();
+            let go = texts::G::new(&from_orules(&opt));
+            let ga = ast.as_ref().map(|a| texts::G::new(&from_rules(a)));
+            let gs: Vec<&texts::G> = ga.iter().chain(std::iter::once(&go)).collect();
             let vm = pest_vm::Vm::new(opt);
             let all = pest_meta::parser::Rule::all_rules();
             let none: Vec<String> = vec![];
             let nor = |_: &str| -> Option<Vec<(char, char)>> { None };
             let src = std::fs::read_to_string(format!("{}/meta/src/grammar.rs", repo.trim_end_matches('/'))).unwrap_or_default();
             let checked = syn::parse_file(&src).ok().and_then(|f| genread::read_parser(&f, &none, &nor).ok());
-            let (mut n, mut nt, mut diffs) = (0u64, 0u64, 0u64);
+            let (n, nt, diffs) = (std::cell::Cell::new(0u64), std::cell::Cell::new(0u64), std::cell::Cell::new(0u64));
+            let mut fed: std::collections::HashSet<(String, String)> = std::collections::HashSet::new();
+            let mut stage_counts: Vec<(String, u64)> = vec![];
             let mut feed = |rule: &str, t: &str, w: &mut BufWriter<io::StdoutLock>| {
                 let r = match all.iter().find(|r| format!("{:?}", r) == rule) { Some(r) => *r, None => return };
+                if t.len() > 2000 || !fed.insert((rule.to_string(), t.to_string())) { return; }
                 let a = catch(|| match pest_meta::parser::parse(r, t) { Ok(p) => format!("Ok {}", forest(p, &|x: pest_meta::parser::Rule| format!("{:?}", x))), Err(e) => obs_err(e) }).unwrap_or_else(|m| format!("Panic {}", m));
                 let b = if names.iter().any(|x| x == rule) { catch(|| match vm.parse(rule, t) { Ok(p) => format!("Ok {}", forest(p, &|x: &str| x.to_string())), Err(e) => obs_err(e) }).unwrap_or_else(|m| format!("Panic {}", m)) } else { "NoSuchRule".to_string() };
-                n += 1;
-                if (a.starts_with("Ok ") && a.len() > 3) || (a.starts_with("Err ") && !a.starts_with("Err 0 ")) { nt += 1; }
-                if a != b { diffs += 1; }
+                n.set(n.get() + 1);
+                if (a.starts_with("Ok ") && a.len() > 3) || (a.starts_with("Err ") && !a.starts_with("Err 0 ")) { nt.set(nt.get() + 1); }
+                if a != b { diffs.set(diffs.get() + 1); }
                 writeln!(w, "D\t{}\t{}\t{}\t{}", rule, hex(t), a, b).unwrap();
             };
+            let spell_rule = |name: &str, depth: u32, cap: usize, rng: &mut Rng| -> Vec<String> {
+                let mut v: Vec<String> = vec![];
+                for g in &gs { if let Some((_, e)) = g.rules.get(name) { for s in g.spell(e, depth, cap, rng) { if !v.contains(&s) { v.push(s); } } } }
+                v
+            };
+            // the grammar's own trivia
+            let mut trivia: Vec<String> = vec![];
+            for t in ["WHITESPACE", "COMMENT"] { for s in spell_rule(t, 3, 14, &mut rng) { if !s.is_empty() && !trivia.contains(&s) { trivia.push(s); } } }
+            let in_trivia: Vec<String> = go.callees(&["WHITESPACE", "COMMENT"]);
+            let roots: Vec<String> = { let r = gs[0].roots(); if r.is_empty() { names.iter().take(1).cloned().collect() } else { r } };
+            let pairs = |ws: &[String]| -> Vec<String> { let k = ws.len().min(10); let mut v: Vec<String> = ws.to_vec(); for a in &ws[..k] { for b in &ws[..k] { v.push(format!("{}{}", a, b)); } } v };
             for tname in &targets {
+                let mark = n.get();
+                // (a)
+                let spellings = spell_rule(tname, 3, 300, &mut rng);
+                for s in &spellings { feed(tname, s, &mut w); }
+                for s in &spellings { for _ in 0..2 { let m = mutate(&mut rng, s); feed(tname, &m, &mut w); } }
+                stage_counts.push((format!("{}:spellings", tname), n.get() - mark));
+                // (b)
+                let mark = n.get();
+                let g0 = gs[0];
+                let dist = g0.dist_to(tname, false);
+                let dist_any = g0.dist_to(tname, true);
+                let mut contexts: Vec<(String, String, String, u32)> = vec![];   // (rule, before, after, distance)
+                for a in &g0.order {
+                    if a == tname { continue; }
+                    if let Some(d) = dist.get(a) { if let Some((pre, post)) = g0.hole(a, tname, &dist) { contexts.push((a.clone(), pre, post, *d)); continue; } }
+                    if dist_any.contains_key(a) { for s in spell_rule(a, 2, 60, &mut rng) { feed(a, &s, &mut w); } }
+                }
+                for (a, pre, post, _) in &contexts {
+                    for (i, s) in spellings.iter().take(150).enumerate() {
+                        feed(a, &format!("{}{}{}", pre, s, post), &mut w);
+                        if i < 40 { let m = mutate(&mut rng, s); feed(a, &format!("{}{}{}", pre, m, post), &mut w); }
+                    }
+                }
+                stage_counts.push((format!("{}:in {} calling rules", tname, contexts.len()), n.get() - mark));
+                // (c)
+                let mark = n.get();
+                let mut buf: Vec<String> = vec![];
+                if in_trivia.iter().any(|x| x == tname) {
+                    let mut ws: Vec<String> = spellings.iter().filter(|s| !s.is_empty()).take(24).cloned().collect();
+                    for t in &trivia { if !ws.contains(t) { ws.push(t.clone()); } }
+                    let ws2 = pairs(&ws);
+                    for a in &g0.order {
+                        let is_root = roots.contains(a);
+                        let bases: Vec<String> = if is_root { let mut b = spell_rule(a, 5, 40, &mut rng); b.sort_by_key(|s| s.len()); b.into_iter().filter(|s| !s.is_empty()).take(12).collect() }
+                            else { let mut b = vec![g0.short.get(a).cloned().unwrap_or_default()]; b.extend(spell_rule(a, 2, 8, &mut rng).into_iter().take(2)); b };
+                        for base in bases.iter().filter(|b| b.len() <= 40) {
+                            buf.clear();
+                            texts::insert_everywhere(base, if is_root && base.len() <= 24 { &ws2 } else { &ws }, &mut buf);
+                            for t in &buf { feed(a, t, &mut w); }
+                        }
+                    }
+                } else if !trivia.is_empty() {
+                    let tr2 = pairs(&trivia);
+                    let mut bases: Vec<(String, String)> = spellings.iter().take(6).map(|s| (tname.clone(), s.clone())).collect();
+                    for (a, pre, post, d) in &contexts {
+                        let k = if roots.contains(a) { 6 } else if *d == 1 { 4 } else { 1 };
+                        for s in spellings.iter().take(k) { bases.push((a.clone(), format!("{}{}{}", pre, s, post))); }
+                    }
+                    for (a, base) in bases.iter().filter(|(_, b)| b.len() <= 60) {
+                        buf.clear();
+                        texts::insert_everywhere(base, if base.len() <= 16 { &tr2 } else { &trivia }, &mut buf);
+                        for t in &buf { feed(a, t, &mut w); }
+                    }
+                }
+                stage_counts.push((format!("{}:trivia at every position", tname), n.get() - mark));
+                if light { continue; }
+                // (d)
+                let mark = n.get();
                 let mut alpha: Vec<char> = vec![];
                 lits_opt(&rmap, tname, 3, &mut vec![], &mut alpha);
                 if let Some(p) = &checked {
@@ -304,13 +426,21 @@ fn main() {
                 for r in ["grammar_rule", "expression", "term"] { if let Some(e) = rmap.get(r) { if let Some((a, b)) = hole(&rmap, e, tname, 6) { ctx.push((format!("a = {{ {}", a), format!("{} }}", b))); } } }
                 let short = all_strings(&alr, 3.min(maxlen));
                 for (pre, post) in &ctx { for x in &short { let t = format!("{}{}{}", pre, x, post); feed("grammar_rules", &t, &mut w); } }
+                stage_counts.push((format!("{}:all strings up to length {} over {} characters", tname, maxlen, alpha.len()), n.get() - mark));
             }
-            writeln!(w, "#SUMMARY\tevaluations={}\tdistinct_nontrivial={}\tdirect_differences={}\tpest_files=0", n, nt, diffs).unwrap();
+            writeln!(w, "STAGES\t{}", stage_counts.iter().map(|(k, v)| format!("{}={}", k, v)).collect::<Vec<_>>().join("; ")).unwrap();
+            writeln!(w, "#SUMMARY\tevaluations={}\tdistinct_nontrivial={}\tdirect_differences={}\tpest_files=0", n.get(), nt.get(), diffs.get()).unwrap();
+        }
+        "freshgen" => {
+            let derived = match catch(|| fresh_tokens(&repo)) { Ok(t) => t, Err(m) => { eprintln!("derive_parser panicked: {}", m); std::process::exit(3); } };
+            writeln!(w, "// GENERATED by `c14 freshgen`: what bootstrap would write to meta/src/grammar.rs for {}\n#![allow(warnings)]\nuse pest::Parser;", grammar_path(&repo)).unwrap();
+            writeln!(w, "mod fresh {{\npub struct PestParser;\n{}\n}}\nuse fresh::{{PestParser as Fresh, Rule}};", derived).unwrap();
+            writeln!(w, "{}", include_str!("../c14_fresh_main.rs.in")).unwrap();
         }
         "freshsrc" => {
             writeln!(w, "// GENERATED by `c14 freshsrc`\n#![allow(warnings)]\nuse pest::Parser;\n#[derive(pest_derive::Parser)]\n#[grammar = {:?}]\npub struct Fresh;", grammar_path(&repo)).unwrap();
             writeln!(w, "{}", include_str!("../c14_fresh_main.rs.in")).unwrap();
         }
-        _ => { eprintln!("usage: c14 regen|read|diff|freshsrc REPO [COUNT SEED]"); std::process::exit(2); }
+        _ => { eprintln!("usage: c14 regen|read|diff|target|freshsrc|freshgen REPO [..]"); std::process::exit(2); }
     }
 }
